@@ -73,6 +73,16 @@ hdr = ["Each of the 20 properties was given to a fresh sub-agent that saw only t
        "C10) chose the same key-block padding shortcut for DSA + 32-byte crypto keys; the shared layout",
        "rule reports it under five properties.",
        "",
+       "**Fifth round** (rows `r5-…`, the ten properties of round 3 again, after two refactoring rounds had",
+       "loosened several rules): steered towards changes hidden inside plausible refactorings, aliasing",
+       "and copy semantics, errors logged but no longer returned, declared-vs-actual lengths, and integer",
+       "conversions that only matter for large values. First pass: 13 own, 5 more only by another",
+       "property's check, 2 by none (a uint16 sum that wraps consistently; a validator that stopped",
+       "comparing a declared length). After strengthening (C03.S4 = C01.R13 = C06.G7 narrow-width",
+       "arithmetic cannot wrap; C14.N8 declared length = len(data) in everything Validate accepts; C14.N9;",
+       "C18: memory behind library package-level variables is shared, access paths through comma-ok map",
+       "lookups): 19 own, 1 only by another (r5-C01-2), 0 missed.",
+       "",
        "Patches are relative to /repo at the commit current when they were written; r4-C02-1 touches a",
        "line changed by fix d047e3c and is kept rebased next to the original.",
        "",
